@@ -131,3 +131,29 @@ theorem single_pole_closed (a y0 : R) (xs : List R) :
     ring
 
 end RR.Dsp
+
+namespace RR.Dsp
+variable {α : Type}
+
+/-- `filter_clamped`: the value returned is a clamped value, and it is that
+same value that is kept for the feedback (any arithmetic, any clamp). -/
+theorem iirClamp_feedback (o : Ops α) (clamp : α → α) (taps buf : List α) (x : α) (buf' : List α) (y : α)
+    (h : iirClampStep o clamp taps buf x = some (buf', y)) (h2 : 2 ≤ taps.length) :
+    buf'.getLast? = some y ∧ ∃ z, y = clamp z := by
+  cases taps with
+  | nil => simp [iirClampStep] at h
+  | cons t0 rest =>
+    simp only [iirClampStep, Option.some.injEq, Prod.mk.injEq] at h
+    obtain ⟨hb, hy⟩ := h
+    refine ⟨?_, ⟨_, hy.symm⟩⟩
+    rw [← hb]
+    split
+    · rename_i hl
+      have hne : 0 < buf.length := by
+        simp only [List.length_append, List.length_cons, List.length_nil] at hl h2
+        omega
+      rw [List.drop_append_of_le_length (by omega), hy]
+      simp
+    · rw [hy]; simp
+
+end RR.Dsp
